@@ -6,7 +6,12 @@ import itertools
 from ..core import Acc, Viol, jhash, exc_key
 from .. import pk, gen, corpus
 from . import c01
+import pathlib
 import propka.run
+import propka.input
+import propka.lib
+import propka.parameters
+from propka.molecular_container import MolecularContainer
 
 ID = 'C12'
 HORIZON_S = 1800   # one case = one input under all its transformations
@@ -326,3 +331,22 @@ def run_case(case, ctx, acc):
                 acc.viols.append(Viol(dict(kind='reject'), 'reject', 'bad-input-not-rejected-with-ValueError/%s' % name, '%s: got %r' % (name, got)))
             if not want_error and got is not None:
                 acc.viols.append(Viol(dict(kind='reject'), 'reject', 'good-input-rejected/%s' % name, '%s: got %r' % (name, got)))
+            # the same through propka.input.read_molecule_file with the name given as a path object / as a string
+            for as_path in (True, False):
+                acc.n += 1
+                try:
+                    options = propka.lib.loadOptions([fname])
+                    prm = propka.input.read_parameter_file(options.parameters, propka.parameters.Parameters())
+                    molc = MolecularContainer(prm, options)
+                    propka.input.read_molecule_file(pathlib.Path(fname) if as_path else fname, molc, stream=io.StringIO(text))
+                    got2 = None
+                except ValueError:
+                    got2 = 'ValueError'
+                except Exception as exc:     # noqa: BLE001
+                    got2 = type(exc).__name__
+                if want_error and got2 != 'ValueError':
+                    acc.viols.append(Viol(dict(kind='reject'), 'reject', 'bad-input-not-rejected-with-ValueError/%s/read_molecule_file-%s' % (
+                        name, 'Path' if as_path else 'str'), '%s: got %r' % (name, got2)))
+                if not want_error and got2 is not None:
+                    acc.viols.append(Viol(dict(kind='reject'), 'reject', 'good-input-rejected/%s/read_molecule_file-%s' % (name, 'Path' if as_path else 'str'),
+                                          '%s: got %r' % (name, got2)))
